@@ -41,25 +41,41 @@ macro_rules! real {
 // entropy
 // ---------------------------------------------------------------------------
 
-static ENTROPY_STATE: AtomicU64 = AtomicU64::new(0); // 0 = not pinned
+static ENTROPY_STATE: AtomicU64 = AtomicU64::new(0); // 0 = not pinned, else the seed
+static ENTROPY_EPOCH: AtomicU64 = AtomicU64::new(0);
+static ENTROPY_NEXT_ORDINAL: AtomicU64 = AtomicU64::new(0);
 pub static ENTROPY_REQUESTS: AtomicU64 = AtomicU64::new(0);
+
+thread_local! {
+    /// (epoch, xorshift state): every thread draws from its own stream, seeded by
+    /// (seed, order in which threads first asked for entropy), so that two threads
+    /// consuming entropy concurrently cannot perturb each other
+    static ENTROPY_TLS: Cell<(u64, u64)> = const { Cell::new((0, 0)) };
+}
 
 pub fn pin_entropy(seed: u64) {
     ENTROPY_STATE.store(seed | 1, Ordering::SeqCst);
+    ENTROPY_NEXT_ORDINAL.store(0, Ordering::SeqCst);
+    ENTROPY_EPOCH.fetch_add(1, Ordering::SeqCst);
 }
 
 fn entropy_fill(buf: *mut u8, len: usize) {
     ENTROPY_REQUESTS.fetch_add(1, Ordering::Relaxed);
     let out = unsafe { std::slice::from_raw_parts_mut(buf, len) };
+    let epoch = ENTROPY_EPOCH.load(Ordering::SeqCst);
+    let (e, mut x) = ENTROPY_TLS.with(|c| c.get());
+    if e != epoch || x == 0 {
+        let ord = ENTROPY_NEXT_ORDINAL.fetch_add(1, Ordering::SeqCst);
+        x = (ENTROPY_STATE.load(Ordering::SeqCst) ^ (ord + 1).wrapping_mul(0x9E3779B97F4A7C15)) | 1;
+    }
     for b in out.iter_mut() {
-        // xorshift64*, one byte per step; atomic so helper threads stay defined
-        let mut x = ENTROPY_STATE.load(Ordering::Relaxed);
+        // xorshift64*
         x ^= x >> 12;
         x ^= x << 25;
         x ^= x >> 27;
-        ENTROPY_STATE.store(x, Ordering::Relaxed);
         *b = (x.wrapping_mul(0x2545F4914F6CDD1D) >> 56) as u8;
     }
+    ENTROPY_TLS.with(|c| c.set((epoch, x)));
 }
 
 #[unsafe(no_mangle)]
